@@ -12,6 +12,8 @@
 //	hplan <reads> <stop>                                handler read plan
 //	resp <status> <cl> <hl> <wl> <trmode> <trhl>        handler response plan
 //	cplan <reads> <stop>                                client read plan
+//	expect                                              the request carries Expect: 100-continue
+//	order <r|w|f>                                       handler: read first | WriteHeader then read | WriteHeader, Flush, read
 //	interim <1xx.1xx…>                                  interim responses the handler sends first (100, 102, 103)
 //	req <method> <path> <cl> <nobody> <hl> <chunks> <trhl>   => handler-observed request
 //	wres                                                => results of the handler's Write calls
@@ -347,6 +349,7 @@ func (p c34ReadPlan) run(r io.Reader) (data []byte, end string) {
 
 type c34RespPlan struct {
 	interim []int // 1xx statuses sent first with w.WriteHeader
+	order   string // "", "r", "w", "f": see c34Handler
 	status int // 0: implicit
 	cl     int
 	h      []c34Field
@@ -398,10 +401,17 @@ func c34Handler(hp c34ReadPlan, rp c34RespPlan, obs *c34Observed, done chan stru
 		obs.invoked = true
 		obs.method, obs.path, obs.cl = r.Method, r.URL.RequestURI(), r.ContentLength
 		obs.h = c34ShowHL(r.Header)
-		obs.body, obs.end = hp.run(r.Body)
-		obs.tr = "-"
-		if obs.end == "eof" {
-			obs.tr = c34ShowHL(r.Trailer)
+		readReq := func() {
+			obs.body, obs.end = hp.run(r.Body)
+			obs.tr = "-"
+			if obs.end == "eof" {
+				obs.tr = c34ShowHL(r.Trailer)
+			}
+		}
+		// order "r": read the request, then choose the status (default);
+		// "w": choose the status with WriteHeader, then read; "f": WriteHeader, Flush, then read.
+		if rp.order != "w" && rp.order != "f" {
+			readReq()
 		}
 		for _, f := range rp.h {
 			w.Header().Add(f.name, f.val)
@@ -417,6 +427,15 @@ func c34Handler(hp c34ReadPlan, rp c34RespPlan, obs *c34Observed, done chan stru
 		}
 		if rp.status != 0 {
 			w.WriteHeader(rp.status)
+		}
+		if rp.order == "w" || rp.order == "f" {
+			if rp.status == 0 {
+				w.WriteHeader(200)
+			}
+			if rp.order == "f" {
+				w.(http.Flusher).Flush()
+			}
+			readReq()
 		}
 		for _, tok := range rp.writes {
 			switch tok {
@@ -524,6 +543,7 @@ type c34Case struct {
 	rp   c34RespPlan
 	cp   c34ReadPlan
 	wbuf int
+	expect bool // the request carries Expect: 100-continue
 }
 
 func c34ClientObserve(resp *http.Response, err error, cp c34ReadPlan) string {
@@ -604,6 +624,9 @@ func (rig *c34Rig) e2e(c c34Case, method, path string, cl int, nobody bool, h []
 		req.Body = &c34ChunkReader{chunks: append([][]byte(nil), chunks...)}
 	}
 	req.ContentLength = int64(cl)
+	if c.expect {
+		req.Header.Set("Expect", "100-continue")
+	}
 	if len(tr) > 0 {
 		req.Trailer = http.Header{}
 		for _, f := range tr {
@@ -1181,6 +1204,7 @@ func (x *c34Exec) exec(ops []string, o *vu.Out) {
 	x.rig.tn.setFaults(0, 0, 0, 0)
 	var wres, cres string
 	var interim []int
+	var order string
 	for _, op := range ops {
 		f := strings.Fields(op)
 		res := "bad-op"
@@ -1203,6 +1227,19 @@ func (x *c34Exec) exec(ops []string, o *vu.Out) {
 				}
 				x.rig.tn.setFaults(seed, d, r, u)
 				c.wbuf = w
+				res = "ok"
+			case "expect":
+				if len(f) != 1 {
+					return
+				}
+				c.expect = true
+				res = "ok"
+			case "order":
+				if len(f) != 2 || (f[1] != "r" && f[1] != "w" && f[1] != "f") {
+					return
+				}
+				order = f[1]
+				c.rp.order = order
 				res = "ok"
 			case "interim":
 				if len(f) != 2 {
@@ -1263,7 +1300,7 @@ func (x *c34Exec) exec(ops []string, o *vu.Out) {
 				if (f[5] == "-") != (len(tr) == 0) {
 					return
 				}
-				c.rp = c34RespPlan{interim: interim, status: st, cl: cl, h: h, writes: ws, trmode: f[5], tr: tr}
+				c.rp = c34RespPlan{interim: interim, order: order, status: st, cl: cl, h: h, writes: ws, trmode: f[5], tr: tr}
 				res = "ok"
 			case "req":
 				if len(f) != 8 {
